@@ -12,7 +12,7 @@ from ..model import qual
 from ..symx import Expander, ref_eval, TupleV
 from ..anf import R
 from .. import anf
-from .common import formula_ob, struct_ob, guard, last_return, rel
+from .common import formula_ob, struct_ob, guard, last_return, rel, U
 from ..report import AnalysisError
 
 REL = "inference/likelihoods.py"
@@ -61,7 +61,7 @@ def run(prog, tier):
         if init is None:
             raise AnalysisError(f"anchor vanished: {ci.name}.__init__")
         sup = [c for c in ast.walk(init) if isinstance(c, ast.Call)
-               and ast.unparse(c.func).startswith("super(") and ast.unparse(c.func).endswith("__init__")]
+               and U(c.func).startswith("super(") and U(c.func).endswith("__init__")]
         params = [a.arg for a in init.args.args[1:]]
         ok = False
         detail = ""
@@ -71,7 +71,7 @@ def run(prog, tier):
                   and isinstance(a[1], ast.Name) and a[1].id == params[1]
                   and isinstance(a[2], ast.Constant) and a[2].value == unc
                   and isinstance(a[3], ast.Name) and a[3].id == params[2])
-            detail = ast.unparse(sup[0])
+            detail = U(sup[0])
         obs.append(struct_ob("ctor-wiring", qual(ci, init), ok,
                              f"super().__init__ must receive (data, uncertainty, '{unc}', forward_model): {detail}",
                              REL, init.lineno, slots={"call": detail}))
@@ -91,7 +91,7 @@ def run(prog, tier):
               and isinstance(ret.value.right, ast.Name) and ret.value.right.id == gfn.args.args[2].arg)
         obs.append(struct_ob("jacobian-contraction", qual(c, gfn), ok,
                              "the gradient must be (dL/dF) @ predictions_jacobian", REL, gfn.lineno,
-                             slots={"return": ast.unparse(ret.value) if ret else None}))
+                             slots={"return": U(ret.value) if ret else None}))
         if ok:
             ex = make_expander(prog, ci)
             env = {"predictions": R.sym("predictions"), gfn.args.args[2].arg: R.sym("J")}
